@@ -96,6 +96,7 @@ static void depth_pass(int sh,int n){ int idx=0; int depths[]={0,1,2,3,4,5,6,7,8
 	flush_counts(); }
 
 // ---------------- round trip -------------------------------------------------------------------
+struct group_punct : std::numpunct<char> { char do_decimal_point() const { return '.'; } char do_thousands_sep() const { return ','; } std::string do_grouping() const { return "\3"; } }; /* en_US-like: the decimal point is the JSON one, but digits are grouped */
 struct comma_punct : std::numpunct<char> { char do_decimal_point() const { return ','; } char do_thousands_sep() const { return '.'; } std::string do_grouping() const { return "\3"; } };
 static std::vector<json::value> atoms(){ std::vector<json::value> a; json::value v; v=json::null(); a.push_back(v); v=true; a.push_back(v); v=false; a.push_back(v); double nums[]={0,-1.5,0.1,1.0/3,1e21,5e-324,DBL_MAX,-DBL_MIN,123456789.0,1e15,1e16,2.2250738585072014e-308,1234567.125,-0.0}; for(size_t i=0;i<sizeof(nums)/8;i++){ v=nums[i]; a.push_back(v); }
 	v=""; a.push_back(v); v="a"; a.push_back(v); v=std::string("\"\\\x01\x7f\x1f/\b\f\n\r\t"); a.push_back(v); v="\xc3\xa9\xe2\x82\xac\xf0\x9f\x98\x80"; a.push_back(v); v=std::string("nu\0l",4); a.push_back(v); v=json::array(); a.push_back(v); v=json::object(); a.push_back(v); return a; }
@@ -107,7 +108,7 @@ static bool approx_equal(const json::value &a,const json::value &b,std::string &
 static bool has_16digit_overflow(const json::value &v){ switch(v.type()){ case json::is_number:{ char b[64]; snprintf(b,64,"%.16g",v.number()); double y=strtod(b,0); return std::isfinite(v.number())&&std::isinf(y); }
 	case json::is_array: for(size_t i=0;i<v.array().size();i++) if(has_16digit_overflow(v.array()[i])) return true; return false;
 	case json::is_object: for(json::object::const_iterator i=v.object().begin();i!=v.object().end();++i) if(has_16digit_overflow(i->second)) return true; return false; default: return false; } }
-static void roundtrip_case(const json::value &v){ static std::locale comma(std::locale::classic(),new comma_punct());
+static void roundtrip_case(const json::value &v){ static std::locale comma_l(std::locale::classic(),new comma_punct()); static std::locale group_l(std::locale::classic(),new group_punct()); for(int which=0;which<2;which++){ const std::locale &comma= which?group_l:comma_l; /* both locale families through the same three situations */
 	// loc: 0 = classic locale, 1 = the stream is imbued with a locale using ',' as decimal point and '.' grouping, 2 = that locale is the process-GLOBAL one (every
 	// stream the library creates internally picks it up)
 	struct GlobalGuard { std::locale old; bool on; GlobalGuard():on(false){} void set(const std::locale &l){ old=std::locale::global(l); on=true; } ~GlobalGuard(){ if(on) std::locale::global(old); } };
@@ -118,7 +119,7 @@ static void roundtrip_case(const json::value &v){ static std::locale comma(std::
 		{ Node n; RefParser rp(text); if(!rp.doc(n)||rp.dup) bad("json:output-not-strict","serialized text is not a strict RFC 8259 document",text); }
 		std::string t2=v2.save(how?json::readable:json::compact); json::value v3; { const char *b=t2.data(); if(!v3.load(b,t2.data()+t2.size(),true)||!(v3==v2)) bad("json:second-round","second round trip is not exact",t2); }
 		{ std::stringstream ss; if(loc==1) ss.imbue(comma); ss<<v; json::value v4; ss>>v4; if(!ss&&has_16digit_overflow(v)) bad("json:roundtrip-reject:16-digit-rendering-overflows","operator<< text does not parse back (same cause)",text); else if(!ss||!approx_equal(v,v4,why)) bad("json:stream-operators","operator<< then operator>> does not round-trip: "+why,text); }
-		if(loc==2) vf::guard("roundtrips_under_global_locale"); vf::outcome("rt:"+text.substr(0,40)); vf::guard("roundtrips"); } }
+		if(loc==2) vf::guard("roundtrips_under_global_locale"); if(which&&loc) vf::guard("roundtrips_under_grouping_locale"); vf::outcome("rt:"+text.substr(0,40)); vf::guard("roundtrips"); } } }
 static void roundtrip_pass(int sh,int n){ std::vector<json::value> a=atoms(); std::vector<json::value> l2; uint64_t idx=0; // depth<=2 trees
 	l2=a; for(size_t i=0;i<a.size();i++){ json::value v; v[0]=a[i]; l2.push_back(v); json::value o; o["k"]=a[i]; l2.push_back(o); } for(size_t i=0;i<a.size();i++) for(size_t j=0;j<a.size();j++){ json::value v; v[0]=a[i]; v[1]=a[j]; l2.push_back(v); json::value o; o["a"]=a[i]; o[std::string("b\"\xc3\xa9")]=a[j]; l2.push_back(o); }
 	for(size_t i=0;i<l2.size();i++) if((idx++%n)==(uint64_t)sh) roundtrip_case(l2[i]);
@@ -149,5 +150,5 @@ int main(int argc,char **argv){ vf::init(argc,argv,"C11","exploration"); int n=1
 	vf::assume("inf/NaN have no JSON form and are not generated; float extraction is required to be the nearest float for in-range numbers");
 	vf::run_sub("rel","enum");
 	vf::parallel(n,n,[&](int sh){ enum_pass(sh,n,4,4,true); strings_pass(sh,n); numbers_pass(sh,n); depth_pass(sh,n); roundtrip_pass(sh,n); if(sh==0) extract_pass(); },1500);
-	vf::require_guard("strict_valid_documents"); vf::require_guard("roundtrips_under_global_locale"); vf::require_guard("accepted_superset"); vf::require_guard("rejected"); vf::require_guard("depth_beyond_bound"); vf::require_guard("roundtrips"); vf::require_guard("extract_exact"); vf::require_guard("extract_throws");
+	vf::require_guard("strict_valid_documents"); vf::require_guard("roundtrips_under_global_locale"); vf::require_guard("roundtrips_under_grouping_locale"); vf::require_guard("accepted_superset"); vf::require_guard("rejected"); vf::require_guard("depth_beyond_bound"); vf::require_guard("roundtrips"); vf::require_guard("extract_exact"); vf::require_guard("extract_throws");
 	return vf::finish(); }
